@@ -556,6 +556,40 @@ func c14(r *ev.Run, replay string) {
 		r.Set("constructor_triples", n)
 		r.Completed(fmt.Sprintf("X all ordered pairs of the %d header-stamping constructors called a, b, a: three distinct ids", len(ctors)))
 	}
+	// a long run of draws on one goroutine, from the start of the process on: every id is new. (Pairs and
+	// triples of draws cannot see a generator that starts over early - at 2^8, 2^16, 2^24 draws - because
+	// the ids it repeats were handed out long before.) Quick: the first 2^24 + 2^17 draws; thorough: all
+	// 2^32 - 1 draws up to the wrap.
+	{
+		n := uint64(1<<24 + 1<<17)
+		if r.Thorough() {
+			n = 1<<32 - 1
+		}
+		bits := make([]uint64, (uint64(1)<<32)/64)
+		common.VerifSetXid(0)
+		var dup, first uint64
+		for i := uint64(0); i < n; i++ {
+			x := uint64(of.NewOfp13Header().Xid)
+			w, b := x/64, x%64
+			if bits[w]>>b&1 == 1 {
+				if dup == 0 {
+					first = i
+				}
+				dup++
+				if dup > 1000 {
+					break
+				}
+			}
+			bits[w] |= 1 << b
+		}
+		bits = nil
+		r.Add("transitions", int64(n))
+		r.Set("sequential_id_run", n)
+		if dup > 0 {
+			r.Violation("duplicate-xid:long-run", fmt.Sprintf("in a run of %d consecutive draws on one goroutine from the start of the counter, draw number %d returned a transaction id that had been handed out before (%d repeats seen)", n, first+1, dup), map[string]any{"long_run": n, "first_repeat_at_draw": first + 1})
+		}
+		r.Completed(fmt.Sprintf("L a run of %d consecutive draws from the start of the counter: every id new", n))
+	}
 	r.Set("independent_value_pairs_compared", pairs)
 	r.Completed("M every message of the controller-originated corpus built twice (constructors, and through Parse): the two object graphs share no slice backing array and no struct")
 	var scenarios, execs int64
